@@ -291,6 +291,37 @@ func CheckMetafile(rc *RunCtx, rec *BuildRec, label string) *Violation {
 			if rec.Opts.LineLimit > 0 {
 				c = strings.ReplaceAll(c, "\\\n", "")
 			}
+			// external package imports: the kind the metafile gives is the form the code uses
+			for _, im := range mo.Imports {
+				// (only where the forms are recognisable: ES module output - other formats turn
+				// import statements into require calls - and helper names not minified)
+				if !im.External || !rePkgSpec.MatchString(im.Path) || rec.Opts.Format != api.FormatESModule || rec.Opts.MinifyIdentifiers {
+					continue
+				}
+				q := regexp.QuoteMeta(im.Path)
+				forms := map[string]*regexp.Regexp{
+					"require-call":     regexp.MustCompile(`(?:^|[^\w$.])(?:__)?require\(\s*["']` + q + `["']\s*\)`),
+					"dynamic-import":   regexp.MustCompile(`(?:^|[^\w$.])import\(\s*["']` + q + `["']\s*\)`),
+					"import-statement": regexp.MustCompile(`(?:\bfrom|\bimport)\s*["']` + q + `["']`),
+				}
+				re, known := forms[im.Kind]
+				if !known {
+					continue
+				}
+				rc.Probe("external_import_kind_crosschecked")
+				if !re.MatchString(c) {
+					var has []string
+					for k, r2 := range forms {
+						if r2.MatchString(c) {
+							has = append(has, k)
+						}
+					}
+					sort.Strings(has)
+					if len(has) > 0 {
+						return viol("external-import-kind-wrong", "", "output %s lists the external import %q with kind %q, but its code imports it as %v", p, im.Path, im.Kind, has)
+					}
+				}
+			}
 			for _, re := range []*regexp.Regexp{reJSFrom, reJSCall} {
 				for _, m := range re.FindAllStringSubmatch(c, -1) {
 					ref := m[1]
@@ -594,6 +625,7 @@ func laterWrite(log []verifsim.Op, op verifsim.Op) bool {
 
 var (
 	reJSFrom    = regexp.MustCompile(`(?:from|import)\s*["']([^"'\n]+)["']`)
+	rePkgSpec   = regexp.MustCompile(`^(pkg[0-9]+|react(/.*)?)$`)
 	reJSCall    = regexp.MustCompile(`(?:import|require)\(\s*["']([^"'\n]+)["']\s*\)`)
 	reCSSURL    = regexp.MustCompile(`url\(\s*["']?([^"')\s]+)["']?\s*\)`)
 	reCSSImport = regexp.MustCompile(`@import\s+["']([^"'\n]+)["']`)
